@@ -370,6 +370,18 @@ def run_tlc_configs(run, sc, tier):
     return emitted
 
 
+MAX_LISTED = 300
+
+
+def report(run, key, what, replay):
+    """run.violation, but after MAX_LISTED distinct violations the rest is only counted (a badly broken
+    implementation fails hundreds of thousands of cases; listing them all is useless and quadratic)."""
+    if len(run.violations) >= MAX_LISTED and key not in run.known:
+        run.coverage["violations_beyond_the_listed_ones"] = run.coverage.get("violations_beyond_the_listed_ones", 0) + 1
+        return
+    run.violation(key, what, replay)
+
+
 def main() -> int:
     tier = sys.argv[1] if len(sys.argv) > 1 else "quick"
     if tier == "--replay":
@@ -403,7 +415,7 @@ def main() -> int:
                         path = paths.get(idx, [])
                         prefix = _acts(path[:stepno])
                         key = f"{g['obj']} start={g['start']['repr']} a={g['a']} b={g['b']} ctor={g['ctor']} path=[{prefix}]: {clause}"
-                        run.violation(key, what, {"obj": g["obj"], "start": g["start"], "a": g["a"], "b": g["b"],
+                        report(run, key, what, {"obj": g["obj"], "start": g["start"], "a": g["a"], "b": g["b"],
                                                   "ctor": g["ctor"], "path": path[:max(stepno, 0)]})
                     for idx, path in g["paths"]:
                         run.count(f"{label}/{gid}/{idx}")
@@ -442,7 +454,7 @@ def symbolic_round_trips(run):
             elif all(d.is_zero is None or d == 0 for d in diffs):
                 run.outside(f"symbolic round trip {kind}: SymPy could not decide")
             else:
-                run.violation(f"symbolic round trip cart->{kind}->cart", f"returned {back.components}", {"kind": "symbolic", "system": kind})
+                report(run, f"symbolic round trip cart->{kind}->cart", f"returned {back.components}", {"kind": "symbolic", "system": kind})
         except HardTimeout:
             run.outside(f"symbolic round trip {kind}: SymPy timed out")
 
